@@ -163,9 +163,9 @@ func (c *checker) writeEvidence() {
 		"violations": len(c.newKeys),
 	}
 	dir := filepath.Join(os.Getenv("DST_VERIF_DIR"), "evidence")
-	_ = os.MkdirAll(dir, 0o755)
+	_ = os.MkdirAll(dir, 0755)
 	bb, _ := json.MarshalIndent(ev, "", " ")
-	if err := os.WriteFile(filepath.Join(dir, c.prop+".json"), bb, 0o644); err != nil {
+	if err := os.WriteFile(filepath.Join(dir, c.prop+".json"), bb, 0644); err != nil {
 		infra("write evidence: %v", err)
 	}
 }
